@@ -206,7 +206,7 @@ theorem minute_no_check_after_error (fuel : Nat) (e : Engine M) (sym : Nat) (rea
 def chunkMatched (fuel : Nat) (e : Engine M) (sym : Nat) (cs : List Candle) (real : Candle) : Engine M :=
   if (executingOrders e sym real).length > 0 then
     simulateChunk.perMinute u fuel sym real cs none e
-      (if (executingOrders e sym real).length > 1 then sortExecutionOrders e (executingOrders e sym real) cs
+      (if (executingOrders e sym real).length > 1 then sortExecutionOrders e (executingOrders e sym real) (fixChunk none cs)
        else executingOrders e sym real)
   else e
 
